@@ -550,7 +550,7 @@ class CacheSim(object):
 
     def _fire_mid(self):
         ev = self.pending_mid.pop(0)
-        self.probe('source_modified_while_processes_run')
+        self.probe('scanner_upgraded_while_processes_run' if ev[0] == 'upgrade' else 'source_modified_while_processes_run')
         self.apply_env(ev)
 
     def versions_current_during(self, key, begin_seq, end_seq):
@@ -990,6 +990,7 @@ class CacheSim(object):
             if rel:
                 p.cwd = p.incpath[0]
                 spelled_incpath[0] = '.'
+                sim.probe('process_with_relative_search_path')
 
             def spell(key):
                 # the path as this scanner's own search (os.path.join(dir, name)) would spell it
